@@ -117,6 +117,36 @@ func c13ModelHas(m []int, x int) bool {
 	return false
 }
 
+// c13BigPool is a pool of n items of pairwise distinct ids whose shapes rotate (IRI, *Object, *Actor, *Activity, Object value).
+func c13BigPool(n int) c13Pool {
+	id := func(i int) ap.IRI { return ap.IRI(fmt.Sprintf("https://example.com/big/%d", i)) }
+	p := c13Pool{}
+	for i := 0; i < n; i++ {
+		i := i
+		var mk func() ap.Item
+		switch i % 5 {
+		case 0:
+			mk = func() ap.Item { return id(i) }
+		case 1:
+			mk = func() ap.Item { return &ap.Object{ID: id(i), Type: ap.NoteType} }
+		case 2:
+			mk = func() ap.Item { return &ap.Actor{ID: id(i), Type: ap.PersonType} }
+		case 3:
+			mk = func() ap.Item { return &ap.Activity{ID: id(i), Type: ap.LikeType, Object: ap.IRI("https://example.com/liked")} }
+		default:
+			mk = func() ap.Item { return ap.Object{ID: id(i), Type: ap.ArticleType} }
+		}
+		p.names = append(p.names, fmt.Sprintf("big%d", i))
+		p.ids = append(p.ids, id(i))
+		p.mk = append(p.mk, mk)
+	}
+	return p
+}
+
+var c13Probe []int // scale histories: membership is probed at these pool indices only (nil: every pool item)
+
+var c13Light bool // during the long prefix of a scale history only contents and count are compared after each step
+
 func c13Step(t *engine.T, kind c13Kind, pool c13Pool, hist string, cont ap.CollectionInterface, m []int, op c13Op) []int {
 	fail := func(sym, format string, a ...any) {
 		t.Fail("C13|"+kind.name+"|"+op.kind+"|"+sym, "history %s: %s", hist, fmt.Sprintf(format, a...))
@@ -181,6 +211,12 @@ func c13Step(t *engine.T, kind c13Kind, pool c13Pool, hist string, cont ap.Colle
 		fail("count", "Count() = %d, ordered set has %d members", cont.Count(), len(m))
 	}
 	for i := range pool.ids {
+		if c13Light {
+			break
+		}
+		if c13Probe != nil && !c13ModelHas(c13Probe, i) {
+			continue
+		}
 		if g, w := cont.Contains(pool.mk[i]()), c13ModelHas(m, i); g != w {
 			fail("membership", "after the step Contains(%s) = %v, ordered set says %v (contents %v)", pool.names[i], g, w, got)
 		}
@@ -207,7 +243,82 @@ func init() {
 	})
 }
 
+// c13Scale reaches far states (k members, k around the powers of two a growth or indexing shortcut could use) in three different
+// ways - one Append per member, one variadic Append, a pre-populated container - and explores every continuation of depth <= 2
+// from each of them.
+func c13Scale(c *engine.Ctx) {
+	sizes := []int{7, 8, 9, 15, 16, 17, 18, 31, 32, 33, 63, 64, 65, 127, 128, 129}
+	for _, kind := range c13Kinds {
+		for _, k := range sizes {
+			for _, how := range []string{"one-by-one", "variadic", "pre-populated"} {
+				kind, k, how := kind, k, how
+				pool := c13BigPool(k + 2)
+				ops := []c13Op{{"append", k, 0}, {"append", 0, 0}, {"append", k - 1, 0}, {"append2", k, k}, {"append2", k, k + 1}, {"append2", k, 0},
+					{"contains", 0, 0}, {"contains", k - 1, 0}, {"contains", k, 0}}
+				if kind.hasRemove {
+					ops = append(ops, c13Op{"remove", 0, 0}, c13Op{"remove", k - 1, 0}, c13Op{"remove", k / 2, 0}, c13Op{"remove", k, 0})
+				}
+				c.Do("C13|"+kind.name, func() string {
+					return fmt.Sprintf("%s grown to %d members (%s), then every continuation up to depth 2 over %d operations", kind.name, k, how, len(ops))
+				}, func(t *engine.T) {
+					var n int64
+					c13Probe = []int{0, 1, k / 2, k - 2, k - 1, k, k + 1}
+					defer func() { c13Probe = nil }()
+					run := func(seq []c13Op) {
+						t.Step(func() string { return fmt.Sprint(seq) })
+						var cont ap.CollectionInterface
+						var m []int
+						hist := fmt.Sprintf("%s grown to %d (%s)", kind.name, k, how)
+						switch how {
+						case "one-by-one":
+							cont = kind.mk(nil)
+							c13Light = true
+							for i := 0; i < k; i++ {
+								m = c13Step(t, kind, pool, hist, cont, m, c13Op{"append", i, 0})
+							}
+							c13Light = false
+						case "variadic":
+							cont = kind.mk(nil)
+							its := make([]ap.Item, k)
+							for i := range its {
+								its[i] = pool.mk[i]()
+								m = append(m, i)
+							}
+							if err := cont.Append(its...); err != nil {
+								t.Fail("C13|"+kind.name+"|append|error", "%s: Append of %d items returned %v", hist, k, err)
+							}
+						default:
+							pre := make(ap.ItemCollection, k)
+							for i := range pre {
+								pre[i] = pool.mk[i]()
+								m = append(m, i)
+							}
+							cont = kind.mk(pre)
+						}
+						// the state reached must be the same whichever way it was reached
+						m = c13Step(t, kind, pool, hist, cont, m, c13Op{"contains", k - 1, 0})
+						for _, op := range seq {
+							hist += "; " + op.str(pool)
+							m = c13Step(t, kind, pool, hist, cont, m, op)
+						}
+						n++
+					}
+					run(nil)
+					for _, o1 := range ops {
+						run([]c13Op{o1})
+						for _, o2 := range ops {
+							run([]c13Op{o1, o2})
+						}
+					}
+					t.AddEvals(n-1, n-1)
+				})
+			}
+		}
+	}
+}
+
 func c13Run(c *engine.Ctx) {
+	c13Scale(c)
 	type cfg struct{ pool, depth int }
 	cfgs := []cfg{{5, 3}, {4, 4}}
 	if !c.Quick() {
